@@ -471,10 +471,10 @@ impl<M: Manager, W: From<Object<M>>> Pool<M, W> {
      * always reports a `max_size` of 0 for closed pools.
      */
     pub fn resize(&self, max_size: usize) {
+        let mut slots = self.inner.slots.lock().unwrap();
         if self.inner.semaphore.is_closed() {
             return;
         }
-        let mut slots = self.inner.slots.lock().unwrap();
         let old_max_size = slots.max_size;
         slots.max_size = max_size;
         // shrink pool
@@ -566,8 +566,16 @@ impl<M: Manager, W: From<Object<M>>> Pool<M, W> {
     ///
     /// This operation resizes the pool to 0.
     pub fn close(&self) {
-        self.resize(0);
+        // The pool is closed and emptied while holding the lock so that
+        // neither a concurrent `resize` nor an object which is being
+        // returned can slip in between the two steps.
+        let mut slots = self.inner.slots.lock().unwrap();
         self.inner.semaphore.close();
+        slots.max_size = 0;
+        while let Some(mut inner) = slots.vec.pop_front() {
+            slots.size -= 1;
+            self.inner.manager.detach(&mut inner.obj);
+        }
     }
 
     /// Indicates whether this [`Pool`] has been closed.
